@@ -57,7 +57,7 @@ from spyne.util.cdict import cdict
 
 
 _date_re = re.compile(DATE_PATTERN)
-_time_re = re.compile(TIME_PATTERN)
+_time_re = re.compile(TIME_PATTERN + r'(Z|[+-]\d{2}:\d{2})?\Z')
 _duration_re = re.compile(
         r'(?P<sign>-?)'
         r'P'
